@@ -29,4 +29,9 @@ def run(repo, tier) -> Result:
     check_taint("C15", res, repo, cas, branches_too=False)
     res.rule("R-TRIM", floor=3)
     res.rule("R-TAINT", floor=27)
+    from ..framework_rules import check_lifespan_flow
+    from ..manager_rules import check_fill
+
+    check_lifespan_flow("C15", res, repo)
+    check_fill("C15", res, repo)
     return res
